@@ -681,6 +681,12 @@ fn state_causes(ex: &Exec, xcopy_done: bool) -> Vec<&'static str> {
         if has_duplicate_path(m) && !c.contains(&"duplicate-path") {
             c.push("duplicate-path");
         }
+        if !c.contains(&"adjacent-text-items") && has_adjacent_text(m) {
+            c.push("adjacent-text-items");
+        }
+        if !c.contains(&"named-without-short-name") && m.elements_dfs().any(|(_, e)| named_without_short_name(&e)) {
+            c.push("named-without-short-name");
+        }
         // an element whose stored DATATYPE is not the one its parent's stored type lists for its name in the version in force
         // (move_element_here / create_copied_sub_element keep the stored type and check only the name)
         if !c.contains(&"stored-type-mismatch") && m.elements_dfs().any(|(_, e)| stored_type_mismatch(&e, true)) {
@@ -688,6 +694,12 @@ fn state_causes(ex: &Exec, xcopy_done: bool) -> Vec<&'static str> {
         }
     }
     c
+}
+
+/// the element's type is identifiable in the version in force, but the element has no SHORT-NAME
+pub fn named_without_short_name(e: &Element) -> bool {
+    let Ok(ver) = e.min_version() else { return false };
+    e.element_type().is_named_in_version(ver) && e.get_sub_element(ElementName::ShortName).is_none()
 }
 
 /// duplicate AUTOSAR paths, computed from the tree
@@ -751,6 +763,44 @@ fn normalise_view(v: &[String]) -> Vec<String> {
             out.replace("[,", "[").replace(",]", "]").replace(",,", ",")
         })
         .collect()
+}
+
+/// the text items of every element joined into one run, blanks dropped (what remains equal when NEIGHBOURING character data
+/// items of a mixed-content element are written as one text run and read back as one item)
+fn merged_text_view(v: &[String]) -> Vec<String> {
+    v.iter()
+        .map(|l| {
+            let Some(k) = l.rfind(" [") else { return l.clone() };
+            let (head, cd) = l.split_at(k);
+            let inner = cd.trim_start_matches(" [").trim_end_matches(']');
+            let items: Vec<&str> = if inner.is_empty() { vec![] } else { inner.split(',').collect() };
+            if items.is_empty() || !items.iter().all(|x| x.starts_with('S') && x.len() % 2 == 1 && x[1..].bytes().all(|b| b.is_ascii_hexdigit())) {
+                return l.clone();
+            }
+            let mut bytes: Vec<u8> = vec![];
+            for x in items {
+                bytes.extend(unhex(&x[1..]));
+            }
+            bytes.retain(|b| !matches!(b, b' ' | b'\t' | b'\n' | b'\r'));
+            format!("{} [S{}]", head, hex(&bytes))
+        })
+        .collect()
+}
+
+/// two neighbouring character data items in some element (possible through insert_character_content_item and by removing the
+/// sub-element between two texts of a mixed-content element)
+fn has_adjacent_text(m: &AutosarModel) -> bool {
+    m.elements_dfs().any(|(_, e)| {
+        let mut prev = false;
+        for c in e.content() {
+            let t = matches!(c, ElementContent::CharacterData(_));
+            if t && prev {
+                return true;
+            }
+            prev = t;
+        }
+        false
+    })
 }
 
 fn hist_script(names: std::sync::Arc<Names>, sd: std::sync::Arc<SpecDump>, probes: Vec<String>, ops: Vec<Op>, tx: mpsc::Sender<Option<String>>) {
@@ -841,6 +891,8 @@ fn hist_script(names: std::sync::Arc<Names>, sd: std::sync::Arc<SpecDump>, probe
                             if v2 != v1 {
                                 if normalise_view(&v1) == normalise_view(&v2) {
                                     sigs.insert("reload-content-differs:string-blank-or-empty".to_string());
+                                } else if merged_text_view(&v1) == merged_text_view(&v2) {
+                                    sigs.insert("reload-content-differs:adjacent-text-merged".to_string());
                                 } else {
                                     sigs.insert("reload-content-differs".to_string());
                                 }
@@ -1206,8 +1258,278 @@ pub fn xattach_main(args: &[String]) {
         versions.len(), combos, done, skipped, kept, retyped, bad, harmless);
 }
 
+// ------------------------------------------------------------------------------------------------ version-dependent content, copied across versions
+const XVER_PATTERN_CANDIDATES: &[&str] = &[
+    "x", "a", "A", "1", "0", "1.0", "true", "0x1", "/a", "/a/b", "a/b", "ABC", "1.0.0", "2020-01-01", "2020-01-01T00:00:00Z", "EN", "AA", "a1", "X_1",
+    "00:00:00:00:00:00", "1.2.3.4", "::1", "0b1", "01", "-1", "1e3", "INF", "ANY", "ALL", "application/xml", "4.0.1", "R4.0", "blueprint", "#x", "a.b", "AUTOSAR",
+];
+
+fn xver_value(spec: &autosar_data_specification::CharacterDataSpec, v: u32) -> Option<CharacterData> {
+    use autosar_data_specification::CharacterDataSpec as S;
+    match spec {
+        S::Enum { items } => items.iter().find(|(_, m)| m & v != 0).map(|(i, _)| CharacterData::Enum(*i)),
+        S::Pattern { check_fn, max_length, .. } => XVER_PATTERN_CANDIDATES
+            .iter()
+            .find(|c| c.len() <= max_length.unwrap_or(usize::MAX) && check_fn(c.as_bytes()))
+            .map(|c| CharacterData::String(c.to_string())),
+        S::String { .. } => Some(CharacterData::String("x".to_string())),
+        S::UnsignedInteger => Some(CharacterData::UnsignedInteger(1)),
+        S::Float => Some(CharacterData::Float(1.0)),
+    }
+}
+
+#[derive(Clone, Debug)]
+enum XItem {
+    Attr(AttributeName),
+    AttrEnum(AttributeName, EnumItem),
+    CdEnum(EnumItem),
+    Sub(ElementName),
+}
+
+impl XItem {
+    fn tag(&self) -> String {
+        match self {
+            XItem::Attr(a) => format!("attr:{}", *a as u16),
+            XItem::AttrEnum(a, e) => format!("attrenum:{}:{}", *a as u16, *e as u16),
+            XItem::CdEnum(e) => format!("cdenum:{}", *e as u16),
+            XItem::Sub(n) => format!("sub:{}", *n as u16),
+        }
+    }
+}
+
+/// xver <dump> <tier> <shard> <nshards> [<datatype>]: content whose existence depends on the version, copied across versions.
+/// For every datatype (one reachable ElementType each) and every item of it with a PARTIAL version mask —
+///   attr      an attribute (set to a value valid in the source version)
+///   attrenum  an enumeration value of an attribute
+///   cdenum    an enumeration value as the element's character data
+///   sub       a sub-element
+/// the element is built in a file of a version INSIDE the mask (the oldest and the newest such version), given the item, and
+/// copied with create_copied_sub_element and create_copied_sub_element_at below a parent of the same kind in a file of a version
+/// OUTSIDE the mask (oldest, newest) and of another version INSIDE it (oldest, newest) — older -> newer and newer -> older.
+/// When the element cannot be copied by itself (a SHORT-NAME: the target parent has one) its parent is copied instead.
+/// Then the target file is serialized and re-loaded.  Lines `XVER item= dt= t= from= to= inside= kind= level= <problems>` for
+/// every combination with a complaint other than RequiredAttributeMissing or a re-loaded content that differs; `cause:` tags
+/// name state conditions of recorded findings (stored-type-mismatch: an element of the copy carries another datatype than its
+/// new parent lists for its name in the target version).
+pub fn xver_main(args: &[String]) {
+    let names = Names::load(&args[0]);
+    let _tier = args.get(1).map(|s| s.as_str()).unwrap_or("quick").to_string();
+    let shard: usize = args.get(2).map(|x| x.parse().unwrap()).unwrap_or(0);
+    let nshards: usize = args.get(3).map(|x| x.parse().unwrap()).unwrap_or(1);
+    let only_dt: Option<u32> = args.get(4).map(|x| x.parse().unwrap());
+    let vbits = version_bits();
+    let all_mask: u32 = vbits.iter().fold(0, |a, b| a | b);
+    let all: Vec<ElementType> = reachable();
+    let mut bfs: HashMap<u32, (HashSet<(u32, u32)>, HashMap<(u32, u32), ((u32, u32), ElementName, bool)>)> = HashMap::new();
+    for v in &vbits {
+        let (o, p) = bfs_version(*v);
+        bfs.insert(*v, (o.into_iter().collect(), p));
+    }
+    let mut seen_dt: HashSet<u32> = HashSet::new();
+    let (mut items_n, mut combos, mut copied, mut refused, mut unbuildable, mut bad) = (0u64, 0u64, 0u64, 0u64, 0u64, 0u64);
+    let mut by_class: BTreeMap<String, u64> = BTreeMap::new();
+    let mut seen_sig: HashSet<String> = HashSet::new();
+    let mut k = 0usize;
+    for t in &all {
+        let tid = et_ids(t);
+        let reach_t: Vec<u32> = vbits.iter().copied().filter(|v| bfs[v].0.contains(&tid)).collect();
+        if reach_t.is_empty() || tid == et_ids(&ElementType::ROOT) || !seen_dt.insert(tid.1) {
+            continue;
+        }
+        if only_dt.map(|d| d != tid.1).unwrap_or(false) {
+            continue;
+        }
+        // the items of this datatype with a partial mask
+        let mut items: Vec<(XItem, u32)> = vec![];
+        for (an, spec, _) in t.attribute_spec_iter() {
+            let m = t.find_attribute_spec(an).map(|a| a.version).unwrap_or(0);
+            if m & all_mask != all_mask {
+                items.push((XItem::Attr(an), m));
+            }
+            if let autosar_data_specification::CharacterDataSpec::Enum { items: its } = spec {
+                let part: Vec<&(EnumItem, u32)> = its.iter().filter(|(_, im)| im & all_mask != all_mask).collect();
+                let pick: Vec<&(EnumItem, u32)> = part; // every partial value in both tiers (the whole sweep takes seconds)
+                for (it, im) in pick {
+                    items.push((XItem::AttrEnum(an, *it), m & im));
+                }
+            }
+        }
+        if let Some(autosar_data_specification::CharacterDataSpec::Enum { items: its }) = t.chardata_spec() {
+            let part: Vec<&(EnumItem, u32)> = its.iter().filter(|(_, im)| im & all_mask != all_mask).collect();
+            let pick: Vec<&(EnumItem, u32)> = part; // every partial value in both tiers (the whole sweep takes seconds)
+            for (it, im) in pick {
+                items.push((XItem::CdEnum(*it), *im));
+            }
+        }
+        if t.content_mode() != ContentMode::Characters {
+            for (name, _ct, m, _) in t.sub_element_spec_iter() {
+                if m & all_mask != all_mask {
+                    items.push((XItem::Sub(name), m));
+                }
+            }
+        }
+        for (item, mask) in items {
+            let inside: Vec<u32> = reach_t.iter().copied().filter(|v| v & mask != 0).collect();
+            let outside: Vec<u32> = reach_t.iter().copied().filter(|v| v & mask == 0).collect();
+            if inside.is_empty() {
+                continue;
+            }
+            items_n += 1;
+            let mut sources = vec![inside[0], inside[inside.len() - 1]];
+            sources.dedup();
+            for va in sources {
+                let mut targets: Vec<(u32, bool)> = vec![];
+                if !outside.is_empty() {
+                    targets.push((outside[0], false));
+                    targets.push((outside[outside.len() - 1], false));
+                }
+                let others: Vec<u32> = inside.iter().copied().filter(|v| *v != va).collect();
+                if !others.is_empty() {
+                    targets.push((others[0], true));
+                    targets.push((others[others.len() - 1], true));
+                }
+                targets.dedup();
+                for (vb, is_inside) in targets {
+                    for kind in ["copy", "copy_at"] {
+                        k += 1;
+                        if k % nshards != shard {
+                            continue;
+                        }
+                        combos += 1;
+                        let (ba, bb) = (&bfs[&va], &bfs[&vb]);
+                        let r = guard(|| -> Result<(Vec<String>, usize), String> {
+                            let (_ma, _fa, e) = build(va, &chain_of(&ba.1, tid), &names).map_err(|m| format!("UNBUILDABLE {}", m))?;
+                            if et_ids(&e.element_type()) != tid {
+                                return Err("UNBUILDABLE source has another type".into());
+                            }
+                            let vera = AutosarVersion::from_val(va).unwrap();
+                            match &item {
+                                XItem::Attr(an) => {
+                                    let sp = t.find_attribute_spec(*an).ok_or("UNBUILDABLE no attribute spec")?;
+                                    let val = xver_value(sp.spec, va).ok_or("UNBUILDABLE no value for the attribute")?;
+                                    e.set_attribute(*an, val).map_err(|x| format!("UNBUILDABLE set_attribute: {}", err_name(&x)))?;
+                                }
+                                XItem::AttrEnum(an, it) => {
+                                    e.set_attribute(*an, CharacterData::Enum(*it)).map_err(|x| format!("UNBUILDABLE set_attribute: {}", err_name(&x)))?;
+                                }
+                                XItem::CdEnum(it) => {
+                                    e.set_character_data(CharacterData::Enum(*it)).map_err(|x| format!("UNBUILDABLE set_character_data: {}", err_name(&x)))?;
+                                }
+                                XItem::Sub(name) => {
+                                    let named = t.find_sub_element(*name, va).map(|(ct, _)| ct.is_named_in_version(vera)).unwrap_or(false);
+                                    let r = if named { e.create_named_sub_element(*name, "sub") } else { e.create_sub_element(*name) };
+                                    if let Err(x) = r {
+                                        if e.get_sub_element(*name).is_none() {
+                                            return Err(format!("UNBUILDABLE create sub-element: {}", err_name(&x)));
+                                        }
+                                    }
+                                }
+                            }
+                            // copy the element itself, or (when the target parent cannot take it) its parent
+                            let mut last_err = String::from("no level");
+                            let mut cur = e.clone();
+                            for level in 0..3usize {
+                                let ct = et_ids(&cur.element_type());
+                                let Some((pt, _nm, _)) = bb.1.get(&ct) else {
+                                    last_err = "type not reachable in the target version".into();
+                                    break;
+                                };
+                                let (mb, fb, pb) = build(vb, &chain_of(&bb.1, *pt), &names).map_err(|m| format!("UNBUILDABLE target: {}", m))?;
+                                if et_ids(&pb.element_type()) != *pt {
+                                    return Err("UNBUILDABLE target parent has another type".into());
+                                }
+                                let res = if kind == "copy" {
+                                    pb.create_copied_sub_element(&cur)
+                                } else {
+                                    let n = pb.content().count();
+                                    let mut r = Err(AutosarDataError::InvalidPosition);
+                                    for pos in 0..=n {
+                                        r = pb.create_copied_sub_element_at(&cur, pos);
+                                        if !matches!(r, Err(AutosarDataError::InvalidPosition)) {
+                                            break;
+                                        }
+                                    }
+                                    r
+                                };
+                                match res {
+                                    Ok(_cp) => {
+                                        let mut out = vec![];
+                                        let text = fb.serialize().map_err(|x| format!("serialize: {}", err_name(&x)))?;
+                                        let (w, v2) = reload_check(&text);
+                                        if !w.is_empty() && std::env::var("AVH_RANGE_SHOW").is_ok() {
+                                            println!("SHOW {:?} {}", w, text);
+                                        }
+                                        for x in w {
+                                            out.push(format!("reload-warning:{}", x.split('@').next().unwrap_or("?")));
+                                        }
+                                        if let Some(v2) = v2 {
+                                            let v1 = file_view(&fb);
+                                            if v2 != v1 {
+                                                out.push(if normalise_view(&v1) == normalise_view(&v2) { "reload-content-differs:string-blank-or-empty".to_string() } else { "reload-content-differs".to_string() });
+                                            }
+                                        }
+                                        if !out.is_empty() {
+                                            if mb.elements_dfs().any(|(_, x)| stored_type_mismatch(&x, true)) {
+                                                out.push("cause:stored-type-mismatch".to_string());
+                                            }
+                                            if has_duplicate_path(&mb) {
+                                                out.push("cause:duplicate-path".to_string());
+                                            }
+                                            // an element whose type is identifiable in the version of its file but that has no SHORT-NAME
+                                            if mb.elements_dfs().any(|(_, x)| named_without_short_name(&x)) {
+                                                out.push("cause:named-without-short-name".to_string());
+                                            }
+                                        }
+                                        return Ok((out, level));
+                                    }
+                                    Err(x) => {
+                                        last_err = format!("{}: {}", kind, err_name(&x));
+                                        match cur.parent() {
+                                            Ok(Some(p)) if p.element_type() != ElementType::ROOT => cur = p,
+                                            _ => break,
+                                        }
+                                    }
+                                }
+                            }
+                            Err(last_err)
+                        });
+                        let head = format!("item={} dt={} t=({},{}) from={} to={} inside={} kind={}", item.tag(), tid.1, tid.0, tid.1, va, vb, is_inside as u8, kind);
+                        match r {
+                            Ok(Ok((problems, level))) => {
+                                copied += 1;
+                                *by_class.entry(item.tag().split(':').next().unwrap().to_string()).or_insert(0) += 1;
+                                let mut p2 = problems.clone();
+                                p2.sort();
+                                p2.dedup();
+                                if !p2.is_empty() {
+                                    bad += 1;
+                                    let sig = p2.join(";");
+                                    let first = seen_sig.insert(format!("{}|{}", item.tag().split(':').next().unwrap(), sig));
+                                    println!("XVER {} level={} {}{}", head, level, sig, if first { " FIRST" } else { "" });
+                                }
+                            }
+                            Ok(Err(m)) => {
+                                if m.starts_with("UNBUILDABLE") { unbuildable += 1 } else { refused += 1 }
+                                if std::env::var("AVH_RANGE_SHOW").is_ok() {
+                                    println!("XVSKIP {} {}", head, m);
+                                }
+                            }
+                            Err(_) => {
+                                bad += 1;
+                                println!("XVER {} level=0 PANIC", head);
+                            }
+                        }
+                    }
+                }
+            }
+        }
+    }
+    println!("STAT xver items={} combinations={} copied={} refused={} unbuildable={} with_problems={} copied_by_class={:?}", items_n, combos, copied, refused, unbuildable, bad, by_class);
+}
+
 pub fn main(args: &[String]) {
     match args[0].as_str() {
+        "xver" => xver_main(&args[1..]),
         "xattach" => xattach_main(&args[1..]),
         "xcopy" => xcopy_main(&args[1..]),
         "plan" => plan_main(&args[1..]),
